@@ -29,7 +29,7 @@ impl Prop for C01 {
         if tier == Tier::Thorough {
             vec!["count_0xfd_or_more", "len_64k_or_more", "segwit_tx", "verify_on", "midrun_flush", "txcount_65536"]
         } else {
-            vec!["count_0xfd_or_more", "segwit_tx", "verify_on", "midrun_flush", "noncanonical_compactsize"]
+            vec!["count_0xfd_or_more", "segwit_tx", "verify_on", "midrun_flush", "noncanonical_compactsize", "high_segment_with_arbitrary_coinbase_script"]
         }
     }
     fn explore(&self, item: u64, rng: &mut Rng, tier: Tier, h: &mut Harness) -> Result<(), String> {
@@ -51,7 +51,8 @@ impl Prop for C01 {
             rng.usize(1, 8)
         };
         let verify = rng.coin();
-        let gen0 = if verify { genesis_block(coin) } else { None };
+        let high_segment = rng.chance(1, 5);
+        let gen0 = if verify && !high_segment { genesis_block(coin) } else { None };
         let arbitrary = rng.chance(2, 3);
         for i in 0..nb {
             if i == 0 {
@@ -117,6 +118,32 @@ impl Prop for C01 {
                 scn.layouts = vec![random_layout(scn.chain.len(), 2, false, rng)];
             }
             r.start = Some(1);
+        }
+        // an index segment high up the chain (above the heights where later consensus rules start), with the
+        // coinbase scriptSig — arbitrary miner bytes — in every shape: height push, short, truncated push
+        if high_segment {
+            let base = *rng.pick(&[21_111u64, 227_930, 227_931, 481_824, 709_632]);
+            scn.base_height = base;
+            let aux_thr = coin_params(coin).auxpow_version;
+            for (i, b) in scn.chain.iter_mut().enumerate() {
+                let hh = base + i as u64;
+                let ss = match rng.below(5) {
+                    0 => coinbase_input(hh, rng).script_sig.0,
+                    1 => rng.bytes_range(0, 6),
+                    2 => vec![*rng.pick(&[1u8, 2, 3, 4, 5, 8]), rng.next() as u8],
+                    3 => vec![*rng.pick(&[1u8, 3, 4, 8, 0x4c, 0x4d, 0x4e])],
+                    _ => b.txs[0].inputs[0].script_sig.0.clone(),
+                };
+                b.txs[0].inputs[0].script_sig = Bytes(ss);
+                if b.auxpow.is_none() && rng.coin() {
+                    let v = *rng.pick(&[2u32, 3, 4, 0x2000_0000, 0x3fff_e000]);
+                    if aux_thr.map(|t| v < t).unwrap_or(true) {
+                        b.version = v;
+                    }
+                }
+            }
+            r.start = Some(base + if verify { 1 } else { 0 });
+            h.stats.probe("high_segment_with_arbitrary_coinbase_script");
         }
         r.threads = pick_threads(rng);
         r.plan = benign_plan(rng);
